@@ -120,6 +120,15 @@ fn handle(a: &[&str]) -> Option<String> {
     let n = |s: &str| s.parse::<u32>().ok();
     Some(match a[0] {
         "hash" => hx(&hash(n(a[1])?, &unhx(a[2]))?),
+        "hashrep" => {
+            // hash of prefix ++ the first n octets of unit repeated (long S2K repetitions)
+            let (id, prefix, unit, n) = (n(a[1])?, unhx(a[2]), unhx(a[3]), a[4].parse::<usize>().ok()?);
+            if unit.is_empty() { return None; }
+            let mut data = prefix;
+            let mut left = n;
+            while left > 0 { let k = left.min(unit.len()); data.extend_from_slice(&unit[..k]); left -= k; }
+            hx(&hash(id, &data)?)
+        }
         "E" => hx(&block(n(a[1])?, &unhx(a[2]), &unhx(a[3]), true)?),
         "D" => hx(&block(n(a[1])?, &unhx(a[2]), &unhx(a[3]), false)?),
         "seal" => hx(&aead_do(n(a[1])?, n(a[2])?, &unhx(a[3]), &unhx(a[4]), &unhx(a[5]), &unhx(a[6]), true)?),
